@@ -104,6 +104,7 @@ Definition reg_model (c : list pdecl * list (str * value)) : option (option str)
             dict(decls=[d(name='a')], config={'a': {'k': {'__user__': 'U(1)'}, 'b': [1e16, 'é']}}),
             dict(decls=[d(name='a'), d(name='b')], config={'a': {'__auto__': 'AutoRidge', 'args': {'alpha': 0.5}},
                                                          'b': [{'__auto__': 'AutoLasso', 'args': {'alpha': 0.5, 'max_iter': 7}}]}),
+            dict(decls=[d(name='a')], config={'a': {'__auto__': 'AutoL', 'args': {'columns': ['b', 'a', 'b'], 'limit': 20}}}),
             # a class that extends the inherited list of ignored arguments in place, rendered before a class that persists
             # arguments of those names (what was rendered earlier in the process must not matter)
             dict(decls=[d(name='a'), d(name='b')], config={'a': {'__auto__': 'AutoX', 'args': {'source': 's', 'workers': 4}},
